@@ -19,6 +19,7 @@ import (
 	"fmt"
 	"os"
 	"os/exec"
+	"runtime/debug"
 	"sort"
 	"strconv"
 	"strings"
@@ -209,7 +210,7 @@ type parseRes struct {
 func implParse(pat, text string) parseRes {
 	var res parseRes
 	for try := 0; try < 20; try++ {
-		df := dateutil.NewDateFormat(pat)
+		df := newDF(pat)
 		res.before = time.Now().UnixMilli()
 		var v int64
 		var err error
@@ -244,7 +245,22 @@ type hcall struct {
 	T    int64 `json:"t"`
 }
 
-var histFormat = dateutil.NewDateFormat("y-m-d H:M:S.s")
+var histFormat = newDF("y-m-d H:M:S.s")
+
+// curDelta is the clock delta the harness has set (stage H); it goes into every replay
+var curDelta int64
+
+// newDF: NewDateFormat under guard (nil if the constructor panics; callers' calls are guarded too)
+func newDF(pat string) (df *dateutil.DateFormat) {
+	vh.Guard(func() { df = dateutil.NewDateFormat(pat) })
+	return
+}
+
+// callI: an int64-returning implementation call under guard
+func callI(f func() int64) (v int64, ok bool) {
+	o := vh.Guard(func() { v = f() })
+	return v, o.OK()
+}
 
 func (c hcall) name() string {
 	switch c.Slot {
@@ -379,13 +395,13 @@ func main() {
 		var seed uint64
 		var n int
 		fmt.Sscanf(j, "%d:%d", &seed, &n)
-		dateutil.SetDelta(0)
+		vh.Guard(func() { dateutil.SetDelta(0) })
 		tzChild(seed, n)
 		return
 	}
 	time.Local = time.UTC
 	os.Setenv("TZ", "UTC")
-	dateutil.SetDelta(0)
+	vh.Guard(func() { dateutil.SetDelta(0) })
 	if j := os.Getenv("C19_DF_CHILD"); j != "" {
 		var job dfJob
 		if err := json.Unmarshal([]byte(j), &job); err != nil {
@@ -417,6 +433,16 @@ func main() {
 
 	env, rep := vh.Parse("C19")
 	rng := vh.NewRng(env.Seed)
+	// safety net: every implementation call below is guarded; should one still escape, the panic is a
+	// finding (with the stack) and the report is written — the harness never dies on the implementation
+	defer func() {
+		if r := recover(); r != nil {
+			rep.Fail("property", "dateutil:panic-in-implementation-call",
+				fmt.Sprintf("a call into util/dateutil panicked: %v\n%s", r, vh.Clip(string(debug.Stack()), 2500)),
+				map[string]interface{}{"op": "panic", "panic": fmt.Sprint(r), "delta": curDelta})
+			rep.Write(env.Out)
+		}
+	}()
 	rep.Rule = "A: every day of 2000-01-01..2099-12-31 (Spec calendar vs time package). " +
 		"B: days (quick: every 7th + firsts/ends of months + Feb 28/29 + first/last week; thorough: every day) x times of day " +
 		"{0,5,45 ms, 11:59:59.999, 12:00:00.000, 23:59:59.999, unit boundaries, random}; every exported helper vs time.Format/arithmetic and vs the model; " +
@@ -491,14 +517,32 @@ func main() {
 			ok[i] = true
 		}
 		rp := map[string]interface{}{"op": "H", "t": t, "utc": time.UnixMilli(t).UTC().Format("2006-01-02T15:04:05.000Z")}
+		if curDelta != 0 {
+			rp["delta"] = curDelta
+			rp["history"] = fmt.Sprintf("SetDelta(%d) (or SetServerTime to the same effect); then the helper on the explicit instant %d", curDelta, t)
+		}
 		if in {
 			std := stdHelpers(t)
+			var implZero []string // the same calls with the clock delta back at 0 (only computed on a mismatch)
 			for i := 0; i < nSlots; i++ {
 				if impl[i] == std[i] {
 					continue
 				}
 				ok[i] = false
 				key := slotName[i] + ":differs-from-standard-calendar"
+				if curDelta != 0 {
+					if implZero == nil {
+						vh.Guard(func() { dateutil.SetDelta(0) })
+						implZero = implHelpers(t)
+						vh.Guard(func() { dateutil.SetDelta(curDelta) })
+					}
+					if implZero[i] == std[i] && i != slotWIdx {
+						rep.Fail("property", slotName[i]+":explicit-instant-depends-on-clock-delta",
+							fmt.Sprintf("after SetDelta(%d): %s(%d) = %q; with delta 0 and by the standard calendar it is %q — a helper given an explicit instant must not apply the clock correction",
+								curDelta, slotName[i], t, impl[i], std[i]), rp)
+						continue
+					}
+				}
 				if i == slotTS && len(impl[i]) >= 17 && len(std[i]) == 21 && impl[i][:18] == std[i][:18] &&
 					impl[i][18:] == fmt.Sprintf("%02d", t%1000) {
 					key = keyD40
@@ -514,7 +558,11 @@ func main() {
 				f    func(int64) int64
 				k    int64
 			}{{"GetDateUnit", dateutil.GetDateUnit, dayMs}, {"GetMinUnit", dateutil.GetMinUnit, 60000}, {"GetFiveMinUnit", dateutil.GetFiveMinUnit, 300000}} {
-				a, b, c := u.f(t), u.f(t+u.k), u.f(t+1)
+				var a, b, c int64
+				if o := vh.Guard(func() { a, b, c = u.f(t), u.f(t+u.k), u.f(t+1) }); !o.OK() {
+					rep.Fail("property", u.name+":panic", fmt.Sprintf("%s panicked around t=%d: %s", u.name, t, o.Panic), rp)
+					continue
+				}
 				if b != a+1 || c < a || c > a+1 || (c == a+1) != ((t+1-baseMs)%u.k == 0) {
 					rep.Fail("property", u.name+":not-a-step-function", fmt.Sprintf("%s: f(t)=%d f(t+1)=%d f(t+step)=%d at t=%d", u.name, a, c, b, t), rp)
 				}
@@ -882,7 +930,7 @@ func main() {
 		var nows []int64
 		cleanRun := false
 		for try := 0; try < 200; try++ {
-			df := dateutil.NewDateFormat(pat)
+			df := newDF(pat)
 			outs, nows = outs[:0], nows[:0]
 			clean := true
 			for _, tx := range texts {
@@ -1126,44 +1174,48 @@ func main() {
 		}
 		for i := 0; i < nd; i++ {
 			target := baseMs + rng.Range(0, nDays-1)*dayMs + rng.Pick64([]int64{0, 1, 999, 59999, 86399990, 86399999, rng.Range(0, dayMs-1)})
-			sys := dateutil.SystemNow()
+			sys, _ := callI(dateutil.SystemNow)
 			d := target - sys
 			rp := map[string]interface{}{"op": "N", "delta": d}
 			rep.Evaluations++
 			if rng.Chance(30) {
-				got := dateutil.SetServerTime(target, 1.0)
-				sys2 := dateutil.SystemNow()
-				if got < target-sys2 || got > d || dateutil.GetDelta() != got { // serverTime - SystemNow() for a clock reading between the two measurements
-					rep.Fail("property", "SetServerTime:delta", fmt.Sprintf("SetServerTime(%d, 1.0) = %d, GetDelta() = %d, expected serverTime - SystemNow() ≈ %d", target, got, dateutil.GetDelta(), d), rp)
+				got, ok1 := callI(func() int64 { return dateutil.SetServerTime(target, 1.0) })
+				sys2, _ := callI(dateutil.SystemNow)
+				gd, ok2 := callI(dateutil.GetDelta)
+				if !ok1 || !ok2 || got < target-sys2 || got > d || gd != got { // serverTime - SystemNow() for a clock reading between the two measurements
+					rep.Fail("property", "SetServerTime:delta", fmt.Sprintf("SetServerTime(%d, 1.0) = %d (ok=%v), GetDelta() = %d, expected serverTime - SystemNow() ≈ %d", target, got, ok1, gd, d), rp)
 				}
 				d = got
 				rep.Count("H:SetServerTime")
 			} else {
-				dateutil.SetDelta(d)
-				if dateutil.GetDelta() != d {
-					rep.Fail("property", "SetDelta:GetDelta", fmt.Sprintf("SetDelta(%d); GetDelta() = %d", d, dateutil.GetDelta()), rp)
+				_, ok1 := callI(func() int64 { dateutil.SetDelta(d); return 0 })
+				gd, ok2 := callI(dateutil.GetDelta)
+				if !ok1 || !ok2 || gd != d {
+					rep.Fail("property", "SetDelta:GetDelta", fmt.Sprintf("SetDelta(%d); GetDelta() = %d", d, gd), rp)
 				}
 				rep.Count("H:SetDelta")
 			}
-			// pure helpers are not affected by the delta
-			probe := baseMs + rng.Range(0, nDays-1)*dayMs + rng.Range(0, dayMs-1)
-			if got, want := dateutil.TimeStamp(probe), stdHelpers(probe)[slotTS]; got != want {
-				rep.Fail("property", "TimeStamp:depends-on-delta", fmt.Sprintf("with delta %d TimeStamp(%d) = %q, want %q", d, probe, got, want), rp)
+			curDelta = d
+			// explicit-instant helpers are functions of their argument (pkg_history_pure): the full helper check
+			// — all exported helpers, unit laws, GetYmdTime inverse, model — on instants unrelated to the clock, with this delta in force
+			for k := 0; k < 3; k++ {
+				probe := baseMs + rng.Range(0, nDays-1)*dayMs + rng.Pick64([]int64{0, 5, 86399999, rng.Range(0, dayMs-1), rng.Range(0, dayMs-1)})
+				checkInstant(probe, "after-set-delta")
 			}
 			which := rng.Intn(4)
-			before := dateutil.SystemNow()
+			before, _ := callI(dateutil.SystemNow)
 			var got string
 			switch which {
 			case 0:
-				got = strconv.FormatInt(dateutil.Now(), 10)
+				got = guardI(dateutil.Now)
 			case 1:
-				got = dateutil.TimeStampNow()
+				got = guardS(dateutil.TimeStampNow)
 			case 2:
-				got = dateutil.YmdNow()
+				got = guardS(dateutil.YmdNow)
 			case 3:
-				got = strconv.FormatInt(dateutil.GetDateUnitNow(), 10)
+				got = guardI(dateutil.GetDateUnitNow)
 			}
-			after := dateutil.SystemNow()
+			after, _ := callI(dateutil.SystemNow)
 			name := []string{"now", "ts", "ymd", "du"}[which]
 			rep.Count("H:" + name)
 			okDirect := false
@@ -1184,7 +1236,9 @@ func main() {
 				rep.Fail("property", name+":not-SystemNow-plus-delta", fmt.Sprintf("delta %d: %s() = %q is not the rendering of SystemNow()+delta for any clock reading in [%d,%d]", d, name, got, before, after), rp)
 			}
 		}
-		dateutil.SetDelta(0)
+		// a delta stays in force while the canary and the remaining stages of this process run? No: back to 0 …
+		curDelta = 0
+		vh.Guard(func() { dateutil.SetDelta(0) })
 	}
 
 	canaryCheck("H")
@@ -1236,7 +1290,13 @@ func main() {
 	for _, c := range replayCases {
 		switch c["op"] {
 		case "H":
+			if dv, ok := c["delta"].(float64); ok && dv != 0 {
+				curDelta = int64(dv)
+				vh.Guard(func() { dateutil.SetDelta(curDelta) })
+			}
 			checkInstant(int64(c["t"].(float64)), "replay")
+			curDelta = 0
+			vh.Guard(func() { dateutil.SetDelta(0) })
 		case "P":
 			checkPattern(c["pattern"].(string), int64(c["t"].(float64)))
 		case "M":
@@ -1454,8 +1514,30 @@ func main() {
 			propFns[fn(f.Key)] = true
 		}
 	}
+	// a function that is wrong on a plain instant in the plain (UTC, delta 0, sequential) setting is reported as that;
+	// the same wrongness seen again by the host-zone / canary / history / concurrency stages is not a separate verdict
+	plainWrong := map[string]bool{}
+	for _, f := range rep.Failures {
+		if f.Kind == "property" && strings.HasSuffix(f.Key, ":differs-from-standard-calendar") {
+			plainWrong[fn(f.Key)] = true
+		}
+	}
+	derived := []string{":depends-on-host-time-zone", ":answer-changed-during-run", ":wrong-in-call-sequence", ":wrong-under-concurrent-calls",
+		":not-a-step-function", ":not-start-of-day", ":panic"}
 	kept := rep.Failures[:0]
 	for _, f := range rep.Failures {
+		if f.Kind == "property" && plainWrong[fn(f.Key)] {
+			drop := false
+			for _, sfx := range derived {
+				if strings.HasSuffix(f.Key, sfx) {
+					drop = true
+				}
+			}
+			if drop {
+				rep.Count("suppressed-derived:" + fn(f.Key))
+				continue
+			}
+		}
 		if f.Kind == "correspondence" && propFns[fn(f.Key)] {
 			rep.Count("suppressed-correspondence:" + fn(f.Key))
 			continue
